@@ -93,46 +93,49 @@ Qed.
 
 (* ------------------------------------------------------------------ Rotate
    The head of Deque.Rotate (Generated/Deque.v, fragment "Deque.Rotate#prefix": the early
-   returns, n %= q.count, modBits := len(q.buf) - 1) is the head of the model's rotate. *)
+   returns, n %= q.count, modBits := len(q.buf) - 1 and the full-buffer fast path that only
+   moves head and tail) is the head of the model's rotate: the model is "run the translated
+   fragment; if it returned, the deque has the head and tail it assigned; otherwise move the
+   elements with the n and modBits it hands on". *)
 From FV Require Import Lib.GoSem.
 
 Section Rotate.
   Context {A : Type}.
   Variable nilv : A.
 
-  (* what the model's rotate does once n and modBits are known *)
-  Definition rotate_rest (d : @deque A) (n modBits : Z) : option (@deque A) :=
-    if head d =? tail d then
-      Some (mkDeque (buf d) (Z.land (head d + n) modBits) (Z.land (tail d + n) modBits)
-                    (count d) (minCap d))
-    else
-      match (if n <? 0 then rot_back_to_front nilv (Z.to_nat (- n)) (buf d) (head d) (tail d) modBits
-             else rot_front_to_back nilv (Z.to_nat n) (buf d) (head d) (tail d) modBits) with
-      | Some (b, h, t) => Some (mkDeque b h t (count d) (minCap d))
-      | None => None
-      end.
+  (* the element-moving loops of the model's rotate, once n and modBits are known *)
+  Definition rotate_moves (d : @deque A) (n modBits : Z) : option (@deque A) :=
+    match (if n <? 0 then rot_back_to_front nilv (Z.to_nat (- n)) (buf d) (head d) (tail d) modBits
+           else rot_front_to_back nilv (Z.to_nat n) (buf d) (head d) (tail d) modBits) with
+    | Some (b, h, t) => Some (mkDeque b h t (count d) (minCap d))
+    | None => None
+    end.
 
   Lemma src_rotate (d : @deque A) n0 :
-    cap d < 2 ^ 63 -> - 2 ^ 63 <= count d < 2 ^ 63 -> - 2 ^ 63 <= n0 < 2 ^ 63 ->
+    cap d < 2 ^ 63 -> - 2 ^ 62 < count d < 2 ^ 62 -> - 2 ^ 63 <= n0 < 2 ^ 63 ->
+    - 2 ^ 62 < head d < 2 ^ 62 -> - 2 ^ 62 < tail d < 2 ^ 62 ->
     rotate nilv d n0 =
-    match go_Deque_Rotate_prefix (count d) (cap d) n0 with
-    | Ok None => Some d
-    | Ok (Some (n, modBits)) => rotate_rest d n modBits
+    match go_Deque_Rotate_prefix (head d) (tail d) (count d) (cap d) n0 with
+    | Ok (Returned _ (h, t)) => Some (mkDeque (buf d) h t (count d) (minCap d))
+    | Ok (Reached (n, modBits, _, _)) => rotate_moves d n modBits
     | Panic | OutOfFuel => None
     end.
   Proof.
-    intros Hc Hn H0. pose proof (cap_range d). change (2 ^ 63) with 9223372036854775808 in *.
-    unfold rotate, go_Deque_Rotate_prefix, rotate_rest. cbv zeta.
-    destruct (Z.leb_spec (count d) 1) as [|Hgt]; [reflexivity|].
+    intros Hc Hn H0 Hh Ht. pose proof (cap_range d).
+    change (2 ^ 63) with 9223372036854775808 in *. change (2 ^ 62) with 4611686018427387904 in *.
+    unfold rotate, go_Deque_Rotate_prefix, rotate_moves. cbv zeta.
+    destruct (Z.leb_spec (count d) 1) as [|Hgt]; [destruct d; reflexivity|].
     rewrite go_rem_ok by lia. cbn [GoSem.bind].
-    assert (Hr : - 9223372036854775808 <= Z.rem n0 (count d) < 9223372036854775808).
+    assert (Hr : - 4611686018427387904 < Z.rem n0 (count d) < 4611686018427387904).
     { pose proof (Z.rem_bound_abs n0 (count d) ltac:(lia)). lia. }
-    rewrite (wrap64 (Z.rem n0 (count d))) by exact Hr.
-    destruct (Z.rem n0 (count d) =? 0); [reflexivity|].
+    rewrite (wrap64 (Z.rem n0 (count d))) by lia.
+    destruct (Z.rem n0 (count d) =? 0); [destruct d; reflexivity|].
     rewrite (wrap64 (cap d - 1)) by lia.
-    destruct (head d =? tail d); [reflexivity|].
-    destruct (Z.rem n0 (count d) <? 0).
-    - destruct (rot_back_to_front nilv _ _ _ _ _) as [[[b h] t]|]; reflexivity.
-    - destruct (rot_front_to_back nilv _ _ _ _ _) as [[[b h] t]|]; reflexivity.
+    destruct (head d =? tail d).
+    - rewrite (wrap64 (head d + Z.rem n0 (count d))), (wrap64 (tail d + Z.rem n0 (count d))) by lia.
+      reflexivity.
+    - destruct (Z.rem n0 (count d) <? 0).
+      + destruct (rot_back_to_front nilv _ _ _ _ _) as [[[b h] t]|]; reflexivity.
+      + destruct (rot_front_to_back nilv _ _ _ _ _) as [[[b h] t]|]; reflexivity.
   Qed.
 End Rotate.
